@@ -429,4 +429,38 @@ theorem noZeroIds_mkEmu_nil (threads : List (Int × Int × Nat)) (cpus : List (N
   rw [List.append_nil]
   exact (allSpecs_chars_nodup.sublist ((List.filter_sublist).map _))
 
+/-! ### one accepted thread / affinity step -/
+
+section
+variable (th mh : Emu → Nat → Nat → Nat → List Nat → Except Err Emu)
+
+/-- In a well-formed state satisfying `NoZeroIds`, the records of every thread or affinity event the
+    handlers accept can be emitted, and the side condition holds again after the step. -/
+theorem records_total_step {e e1 : Emu} (h : WF e) (hz : NoZeroIds e) (hen : e.enabled.contains 79 = true)
+    {ev : OEv} (hk : IsThreadEv ev ∨ IsAffinityEv ev)
+    (hm : modelEvent e ev.1 79 ev.2.1 ev.2.2.1 ev.2.2.2 th mh = .ok e1) :
+    (∃ rs, records e e1 = .ok rs) ∧ NoZeroIds e1.flushAll := by
+  have hs : emuStep th mh e ev = .ok e1.flushAll := by unfold emuStep; rw [hm]
+  obtain ⟨tj, x, hso⟩ := emuStep_sound th mh h hen hk hs
+  have hz1 : NoZeroIds e1.flushAll := hz.of_static hso.static
+  exact ⟨records_total_of_wf e hso.wf hz1.of_flushAll, hz1⟩
+
+/-- with `NoZeroIds`, the full step (`stepEv`: handlers, records, flush) accepts exactly when its
+    emulator component (`emuStep`: handlers, flush) does -/
+theorem stepEv_iff_emuStep {e : Emu} (h : WF e) (hz : NoZeroIds e) (hen : e.enabled.contains 79 = true)
+    {ev : OEv} (hk : IsThreadEv ev ∨ IsAffinityEv ev) (e' : Emu) :
+    (∃ rs, stepEv e ev.1 79 ev.2.1 ev.2.2.1 ev.2.2.2 th mh = .ok (e', rs)) ↔ emuStep th mh e ev = .ok e' := by
+  constructor
+  · rintro ⟨rs, hs⟩; exact stepEv_emuStep th mh hs
+  · intro hs
+    unfold emuStep at hs
+    cases hm : modelEvent e ev.1 79 ev.2.1 ev.2.2.1 ev.2.2.2 th mh with
+    | error err => rw [hm] at hs; cases hs
+    | ok e1 =>
+      rw [hm] at hs
+      have he' : e' = e1.flushAll := by injection hs with h'; exact h'.symm
+      obtain ⟨⟨rs, hrs⟩, _⟩ := records_total_step th mh h hz hen hk hm
+      exact ⟨rs, (stepEv_ok_iff th mh e ev e' rs).mpr ⟨e1, hm, hrs, he'⟩⟩
+end
+
 end Ovni.Emu
